@@ -158,14 +158,32 @@ func (a *verifC02Archive) payload(name string, n int, layout int, withHash bool)
 	return a.payloadWithHead(nil, name, n, layout, withHash)
 }
 
-// txDataPayload archives the wire bytes of a transaction: compact-u16 signature count 1, the 64
-// signature bytes, then n symbolic message bytes. The head (count + signature) always lies in the
-// first frame, as in real archives (frames are cut at a size far above 65 bytes).
+// txDataPayload archives the wire bytes of a single-signature transaction: compact-u16 signature
+// count 1, the 64 signature bytes, then n symbolic message bytes; the head (count + signature) lies in
+// the first frame together with its share of the message bytes.
 func (a *verifC02Archive) txDataPayload(sig solana.Signature, name string, n int, layout int, withHash bool) verifC02Payload {
-	head := make([]byte, 65)
-	head[0] = 1
-	copy(head[1:], sig[:])
-	return a.payloadWithHead(head, name, n, layout, withHash)
+	return a.txDataPayloadCut([]solana.Signature{sig}, name, n, layout, withHash, -1)
+}
+
+// txDataPayloadCut archives the wire bytes of a transaction with the given signatures (count byte,
+// 64 bytes per signature, n symbolic message bytes). firstFrame < 0: the count and all signatures lie
+// in the first frame together with its share of the message; firstFrame >= verifC02TxHead: in the
+// multi-frame layouts the first frame holds exactly that many bytes (it may end inside the signature
+// array after the first signature). Frames are never cut inside the count byte or the first signature:
+// the first frame of every archived transaction holds at least verifC02TxHead bytes.
+func (a *verifC02Archive) txDataPayloadCut(sigs []solana.Signature, name string, n int, layout int, withHash bool, firstFrame int) verifC02Payload {
+	want := []byte{byte(len(sigs))}
+	for _, s := range sigs {
+		want = append(want, s[:]...)
+	}
+	want = append(want, verifBytes(name, n)...)
+	if firstFrame < 0 {
+		return a.payloadBytes(want, 1+64*len(sigs), layout, withHash)
+	}
+	if firstFrame > len(want) {
+		firstFrame = len(want)
+	}
+	return a.payloadBytesExact(want, firstFrame, layout, withHash)
 }
 
 const verifC02TxHead = 65 // compact-u16(1) + first signature
@@ -179,10 +197,26 @@ func (a *verifC02Archive) payloadWithHead(head []byte, name string, n int, layou
 // payloadBytes archives the given bytes; the first h bytes stay in the first frame and the rest is
 // cut evenly over the frames of the layout.
 func (a *verifC02Archive) payloadBytes(want []byte, h int, layout int, withHash bool) verifC02Payload {
+	return a.payloadFrames(want, h, false, layout, withHash)
+}
+
+// payloadBytesExact archives the given bytes; in the multi-frame layouts the first frame holds
+// exactly the first h bytes and the rest is cut evenly over the other frames.
+func (a *verifC02Archive) payloadBytesExact(want []byte, h int, layout int, withHash bool) verifC02Payload {
+	return a.payloadFrames(want, h, true, layout, withHash)
+}
+
+func (a *verifC02Archive) payloadFrames(want []byte, h int, exact bool, layout int, withHash bool) verifC02Payload {
 	n := len(want) - h
 	p := verifC02Payload{want: want}
 	p.first = ipldbindcode.DataFrame{Kind: verifC02KindDataFrame}
 	cut := func(i, k int) []byte {
+		if exact && k > 1 {
+			if i == 0 {
+				return p.want[:h]
+			}
+			return p.want[h+n*(i-1)/(k-1) : h+n*i/(k-1)]
+		}
 		lo, hi := h+n*i/k, h+n*(i+1)/k
 		if i == 0 {
 			lo = 0
